@@ -252,6 +252,24 @@ func (dom BLSDomain) String() string {
 	return "0x" + hex.EncodeToString(dom[:])
 }
 
+func (dom BLSDomain) MarshalText() ([]byte, error) {
+	return []byte("0x" + hex.EncodeToString(dom[:])), nil
+}
+
+func (dom *BLSDomain) UnmarshalText(text []byte) error {
+	if dom == nil {
+		return errors.New("cannot decode into nil BLSDomain")
+	}
+	if len(text) >= 2 && text[0] == '0' && (text[1] == 'x' || text[1] == 'X') {
+		text = text[2:]
+	}
+	if len(text) != 64 {
+		return fmt.Errorf("unexpected length string '%s'", string(text))
+	}
+	_, err := hex.Decode(dom[:], text)
+	return err
+}
+
 func ComputeDomain(domainType BLSDomainType, forkVersion Version, genesisValidatorsRoot Root) (out BLSDomain) {
 	copy(out[0:4], domainType[:])
 	forkDataRoot := ComputeForkDataRoot(forkVersion, genesisValidatorsRoot)
